@@ -146,10 +146,11 @@ func propC10(r *kernel.Run) {
 		unrelated.creds = c
 	}
 	type acceptedRec struct {
-		payload []byte
-		req     *types.RotateNodeCredentialsRequest
-		enc     *nodeSide
-		newID   *Ident
+		payload  []byte
+		req      *types.RotateNodeCredentialsRequest
+		enc      *nodeSide
+		newID    *Ident
+		notAfter time.Time // end of the inner request's validity
 	}
 	var accepted []acceptedRec // requests honored earlier (for replay)
 	var hist []string
@@ -196,7 +197,14 @@ func propC10(r *kernel.Run) {
 		}
 		// inner request
 		newID := NewIdent(fmt.Sprintf("A%d", len(chain)))
-		innerClass := Pick2(tp, "honest", "honest", "honest", "token-nonce", "bad-signature", "expired", "not-yet-valid", "key-already-registered")
+		innerClass := Pick2(tp, "honest", "honest", "honest", "token-nonce", "bad-signature", "expired", "not-yet-valid", "key-already-registered", "near-expiry")
+		// the server's configured tolerance for requests whose validity has just run out (absent: the library's default)
+		naSkew, naSet := 5*time.Minute, false // the documented default
+		if tp.Draw(3) == 0 {
+			naSkew, naSet = []time.Duration{0, time.Second, 30 * time.Second, time.Hour}[tp.Draw(4)], true
+			r.Count("cfg.configured_not_after_skew", 1)
+		}
+		nearExpiryInside := false
 		sp := HonestSpec(newID)
 		sp.PrevPkix = cur.id.Pkix
 		switch innerClass {
@@ -207,6 +215,14 @@ func propC10(r *kernel.Run) {
 		case "expired":
 			sp.NotBefore = time.Now().Add(-48 * time.Hour)
 			sp.NotAfter = time.Now().Add(-24 * time.Hour)
+		case "near-expiry":
+			d := tp.DurLog(time.Millisecond, 2*time.Hour)
+			if d == naSkew {
+				d += time.Millisecond
+			}
+			sp.NotBefore = time.Now().Add(-24 * time.Hour)
+			sp.NotAfter = time.Now().Add(-d)
+			nearExpiryInside = d < naSkew
 		case "not-yet-valid":
 			sp.NotBefore = time.Now().Add(24 * time.Hour)
 			sp.NotAfter = time.Now().Add(48 * time.Hour)
@@ -238,6 +254,10 @@ func propC10(r *kernel.Run) {
 				enc, newID = ac.enc, ac.newID
 				replay = true
 				identClass, encClass, innerClass = "replayed", "replayed", "honest"
+				if d := time.Since(ac.notAfter); d > 0 {
+					// the replayed request's validity has run out meanwhile: inside this call's tolerance or not
+					innerClass, nearExpiryInside = "near-expiry", d <= naSkew // (the widened window is closed)
+				}
 			}
 		case 1:
 			payload = append([]byte(nil), payload...)
@@ -300,7 +320,7 @@ func propC10(r *kernel.Run) {
 		if innerClass == "key-already-registered" {
 			newKeyRegistered = true
 		}
-		innerValid := (innerClass == "honest" || innerClass == "key-already-registered") && !newKeyRegistered
+		innerValid := (innerClass == "honest" || innerClass == "key-already-registered" || (innerClass == "near-expiry" && nearExpiryInside)) && !newKeyRegistered
 		expectHonor := auth != nil && innerValid && corrupt == "none"
 		mayHonor := auth != nil && innerValid // a corrupted blob may still decrypt to the original message
 		if replay && newKeyRegistered {
@@ -310,6 +330,9 @@ func propC10(r *kernel.Run) {
 		before := countNodeInfos(w)
 		var resp *types.RotateNodeCredentialsResponse
 		ropts := w.Opts()
+		if naSet {
+			ropts = append(ropts, nodeenrollment.WithNotAfterClockSkew(naSkew))
+		}
 		if tp.Draw(4) == 0 {
 			// the application's shared option list may carry a WithState of its own; the new record must still carry the
 			// authenticating record's state (also when that state is absent)
@@ -432,7 +455,7 @@ func propC10(r *kernel.Run) {
 				r.Count("ops.retire_old_record", 1)
 			}
 			chain = append(chain, ns)
-			accepted = append(accepted, acceptedRec{payload, rr, enc, newID})
+			accepted = append(accepted, acceptedRec{payload, rr, enc, newID, sp.NotAfter})
 		}
 		r.FP(class, corrupt, honored, len(scope), viaPrev, loader)
 		r.StateFP(class, honored, len(chain))
